@@ -480,3 +480,46 @@ func Hxe(b []byte) string {
 	return hx(b)
 }
 func UnHex(s string) []byte { return mustHex(s) }
+
+// ExpandTok: the basic-event expansion (array.go / map.go / string.go) of one
+// extended token; basic tokens expand to themselves. Typed maps expand in the
+// order their entries are written in the token.
+func ExpandTok(t string) []string {
+	bt := map[string]int{"bool": 3, "str": 2, "i": 5, "i8": 6, "i16": 7, "i32": 8, "i64": 9, "u": 10, "u8": 11, "u16": 12, "u32": 13, "u64": 14, "f32": 15, "f64": 16, "b": 1}
+	elem := func(kind, e string) string {
+		switch kind {
+		case "bool":
+			return e
+		case "str":
+			return "S:" + e
+		case "f32", "f64":
+			return kind + ":" + e
+		default:
+			return kind + ":" + e
+		}
+	}
+	switch {
+	case strings.HasPrefix(t, "R:"):
+		return []string{"S:" + t[2:]}
+	case strings.HasPrefix(t, "Q:"):
+		return []string{"K:" + t[2:]}
+	case t[0] == 'A':
+		h, r := splitOnce(t[1:], ':')
+		es := elems(r)
+		out := []string{fmt.Sprintf("[%d:%d", len(es), bt[h])}
+		for _, e := range es {
+			out = append(out, elem(h, e))
+		}
+		return append(out, "]")
+	case t[0] == 'O':
+		h, r := splitOnce(t[1:], ':')
+		es := elems(r)
+		out := []string{fmt.Sprintf("{%d:%d", len(es), bt[h])}
+		for _, e := range es {
+			k, v := splitOnce(e, '=')
+			out = append(out, "K:"+k, elem(h, v))
+		}
+		return append(out, "}")
+	}
+	return []string{t}
+}
